@@ -131,3 +131,15 @@ def run(ctx):
     for fn, ok, where, wit in cancelled_io_findings(F):
         r6.check(ok, "elapsed-arm:" + fn.split("::")[-2], "timeout over server I/O in %s marks the server bad" % fn.split("::")[-2],
                  "a timed-out request in %s leaves its reply unread on a reusable connection: the next client receives it as the result of its own statement" % fn.split("::")[-2], where, wit)
+
+    # ---------------- R7 an abandoned transaction does not change hands
+    r7 = ctx.rule("C01-R7", "a connection whose client left inside a transaction is rolled back (or discarded) at check-in: in checkin_cleanup every way from in_transaction()==true to an Ok return crosses a "
+                  "successful ROLLBACK query or marks the connection bad, and the release path of handle goes through checkin_cleanup", floor=2)
+    from common import rollback_findings
+    for key, ok, where, wit in rollback_findings(F):
+        if ok is None:
+            r7.missing(key)
+        else:
+            r7.check(ok, key, "checkin_cleanup rolls an open transaction back before returning Ok", "checkin_cleanup can return Ok with the previous client's transaction still open (the ROLLBACK is built but not sent on some path): "
+                     "the next client's statements run inside that transaction and its COMMIT makes the abandoned work durable", where, wit)
+    r7.check(bool(rel), "release-through-checkin_cleanup", "the release path of the transaction loop calls checkin_cleanup (%d site(s))" % len(rel), "handle no longer calls checkin_cleanup on the release path")
